@@ -251,7 +251,7 @@ IsOpDesc(x) ==
         x = MkOp("query+header+cookie", d, q, None3, h, c, None3, Cfg0)
   \/ \E d \in OpDialects \cap D3, h \in {h \in HeaderIdx : h[1] # 0 /\ h[2] \in {1, 6} /\ h[3] = 0}, c \in CookieIdx \ {None3} :      \* locations of different negatability
         x = MkOp("header+cookie", d, None3, None3, h, c, None3, Cfg0)
-  \/ Family = "c03o" /\ \E d \in OpDialects, it \in Items \ {ItemInline}, q \in {q \in QueryIdx : q[3] = 0 /\ (q[1] = 0 \/ q[2] \in {1, 6})}, b \in {None3, <<2, 1, 0>>} :   \* path-item shapes
+  \/ Family = "c03o" /\ \E d \in OpDialects, it \in Items \ {ItemInline}, q \in {None3, <<2, 1, 0>>, <<1, 6, 0>>}, b \in {None3, <<2, 1, 0>>} :   \* path-item shapes
         x = [MkOp("path-item", d, q, None3, None3, None3, b, Cfg0) EXCEPT !.item = it]
   \/ Family # "c03o" /\ \E a \in {2, 6}, cf \in Cfgs : x = MkOp("config", "3.0", <<2, a, 0>>, None3, <<2, a, 0>>, None3, <<2, 1, 0>>, cf)
 
